@@ -1,8 +1,9 @@
 (* Properties_C05.v — C05: no leak, no foreign or double close.  Theorems only (ownership table,
    close footprints of the post-start API, exit block of start) and THE MEMORY HALF FOR EVERY FAULT
-   PLAN (C05_start_releases_every_block, proof in HeapSpec.v); the descriptor and child balance of
-   whole histories under every fault plan is decided by the tie's fault enumeration. *)
-From Verif Require Import Lib Build OptSpec WorldSpec WorldSpec2 LibSpec LibSpec2 ParentSpec HeapSpec.
+   PLAN (C05_start_releases_every_block, proof in HeapSpec.v) and THE DESCRIPTOR HALF FOR EVERY
+   HISTORY AND EVERY FAULT PLAN (C05_history_restores_descriptor_table, proof in FdSpec.v); the
+   child balance of whole histories under every fault plan is decided by the tie's fault enumeration. *)
+From Verif Require Import Lib Build OptSpec WorldSpec WorldSpec2 LibSpec LibSpec2 ParentSpec StartSpec HeapSpec FdSpec.
 Import Lib.
 From Coq Require Import Lia.
 Local Open Scope Z_scope.
@@ -122,6 +123,73 @@ Proof.
   split; [cbn; lia|]. split; [reflexivity|]. split; [cbn; lia|]. split.
   - intros id Hid. unfold heap_live. cbn in Hid |- *. rewrite lookup_insert_ne by lia. rewrite lookup_empty. reflexivity.
   - split; vm_compute; reflexivity.
+Qed.
+
+(* DESCRIPTORS, EVERY HISTORY, EVERY FAULT PLAN.  Any sequence of calls on a handle made by
+   reproc_new -- starts that fail, starts that succeed, restarts after a failure, reads, writes,
+   closes, polls, waits, terminate, kill, stop sequences, in any order, each under any fault plan
+   (failures of close itself included: close releases the slot whatever it reports) and whatever
+   the children do -- followed by destroy leaves the caller's descriptor table EXACTLY as it was
+   before the first call: same descriptors, same objects, same flags.  In particular nothing the
+   caller owned (handles given in the options, FILE streams, its standard streams) was closed or
+   re-flagged, nothing the library opened is left, and no number was closed twice with a foreign
+   descriptor in between (that descriptor would be missing from the table). *)
+Theorem C05_history_restores_descriptor_table : forall (ck : rp -> MW unit) ops p w u w',
+  WorldSpec2.wf w -> 0 <= w_cur w -> 0 < w_next_blk w -> (forall q, kp (w_cur w) (ck q)) -> fresh_handle p ->
+  (let* p' := run_hops ck p ops in reproc_destroy p') w = Ret u w' ->
+  pr_fds (curp w') = pr_fds (curp w).
+Proof. exact history_restores_descriptor_table. Qed.
+Print Assumptions C05_history_restores_descriptor_table.
+
+(* one call of start: after a failure the table is exactly what it was; after a success it differs
+   by the handle's own pipe ends only, each on a number that was free before *)
+Theorem C05_start_descriptor_table : forall p argv o src (ck : rp -> MW unit) w r p' w',
+  WorldSpec2.wf w -> 0 <= w_cur w -> 0 < w_next_blk w -> (forall q, kp (w_cur w) (ck q)) ->
+  h_in p = HANDLE_INVALID -> h_out p = HANDLE_INVALID -> h_err p = HANDLE_INVALID -> h_exit p = HANDLE_INVALID ->
+  h_handle p = PROCESS_INVALID ->
+  reproc_start p argv o src ck w = Ret (r, p') w' ->
+  (r < 0 /\ pr_fds (curp w') = pr_fds (curp w)) \/
+  (0 < r /\ (forall fd, ~ In fd (POWN p') -> pr_fds (curp w') !! fd = pr_fds (curp w) !! fd) /\
+            (forall fd, In fd (POWN p') -> pr_fds (curp w) !! fd = None /\ is_Some (pr_fds (curp w') !! fd)) /\ NoDup (POWN p')).
+Proof. exact reproc_start_fds. Qed.
+Print Assumptions C05_start_descriptor_table.
+
+(* the inner layer: the two error pipes of process_start / process_fork are always closed again *)
+Theorem C05_process_start_restores_descriptor_table : forall pr argv o ck w r pid w',
+  WorldSpec2.wf w -> 0 <= w_cur w -> kp (w_cur w) ck ->
+  process_start pr argv o ck w = Ret (r, pid) w' ->
+  pr_fds (curp w') = pr_fds (curp w).
+Proof. exact process_start_fds. Qed.
+Print Assumptions C05_process_start_restores_descriptor_table.
+
+(* what redirect_init leaves open is exactly what redirect_destroy's REGENERATED table will close *)
+Theorem C05_redirect_init_owns_what_destroy_closes : forall T own c stream rd nb out w r p' c' rd' w',
+  fq T own c w ->
+  redirect_init HANDLE_INVALID HANDLE_INVALID stream rd nb out w = Ret (r, p', c', rd') w' ->
+  RI T own c r p' (rd_type rd') c' w'.
+Proof. exact F_redirect_init. Qed.
+Print Assumptions C05_redirect_init_owns_what_destroy_closes.
+
+(* non-vacuity: start with three pipes + wait + close + stop + destroy on the world above, without
+   faults and with a failure injected into the start: the history runs to its end, the table had
+   grown in between (four descriptors after the successful start), and is back to its one entry *)
+Definition C05_ex_ops : list hop :=
+  [HStart (Some [[46; 47; 116]]) C05_ex_opts 0; HWait 1000; HClose REPROC_STREAM_IN;
+   HStart (Some [[46; 47; 116]]) C05_ex_opts 0; HStop {| st_first := noop; st_second := noop; st_third := noop |}].
+Definition C05_ex_keys (w : world) : list Z := map fst (map_to_list (pr_fds (curp w))).
+Definition C05_ex_hist (faults : list (Z * positive)) : bool :=
+  match (let* p' := run_hops (fun _ => ret tt) (rp_new 1) C05_ex_ops in reproc_destroy p') (C05_ex_world faults) with
+  | Ret _ w' => match C05_ex_keys w' with [k] => k =? 0 | _ => false end
+  | _ => false end.
+Definition C05_ex_mid : bool :=
+  match run_hops (fun _ => ret tt) (rp_new 1) [HStart (Some [[46; 47; 116]]) C05_ex_opts 0] (C05_ex_world []) with
+  | Ret p' w' => (length (C05_ex_keys w') =? 4)%nat && (h_status p' =? STATUS_IN_PROGRESS)
+  | _ => false end.
+Example C05_ex_history :
+  fresh_handle (rp_new 1) /\ (forall q : rp, kp 7 (ret tt)) /\
+  C05_ex_hist [] = true /\ C05_ex_hist [(27, 12%positive)] = true /\ C05_ex_hist [(3, 24%positive); (40, 4%positive)] = true /\ C05_ex_mid = true.
+Proof.
+  split; [apply fresh_rp_new|]. split; [intros _; apply kp_ret|]. repeat split; vm_compute; reflexivity.
 Qed.
 
 Example C05_ex : redirect_destroy_closes REPROC_REDIRECT_PIPE = true /\ redirect_destroy_closes REPROC_REDIRECT_HANDLE = false.
